@@ -305,6 +305,16 @@ func (fr *frame) display(v value) string {
 }
 
 func (fr *frame) callStringMethod(x iface, name string) (string, bool) {
+	r, ok := fr.callStringMethodVal(x, name)
+	if !ok {
+		return "", false
+	}
+	return fr.display(r), true
+}
+
+// callStringMethodVal calls the niladic string method name of x (if any) and
+// returns its result as a value (string or symstr).
+func (fr *frame) callStringMethodVal(x iface, name string) (value, bool) {
 	ms := fr.i.prog.MethodSets.MethodSet(x.t)
 	for i := 0; i < ms.Len(); i++ {
 		sel := ms.At(i)
@@ -313,19 +323,64 @@ func (fr *frame) callStringMethod(x iface, name string) (string, bool) {
 		}
 		sig, ok := sel.Type().(*types.Signature)
 		if !ok || sig.Params().Len() != 0 || sig.Results().Len() != 1 {
-			return "", false
+			return nil, false
 		}
 		if b, ok := sig.Results().At(0).Type().Underlying().(*types.Basic); !ok || b.Kind() != types.String {
-			return "", false
+			return nil, false
 		}
 		fn := fr.i.prog.MethodValue(sel)
 		if fn == nil {
-			return "", false
+			return nil, false
 		}
-		r := fr.call(fr.curPos(), fn, []value{x.v}, nil)
-		return fr.display(r), true
+		return fr.call(fr.curPos(), fn, []value{x.v}, nil), true
 	}
-	return "", false
+	return nil, false
+}
+
+// displayVals renders a formatting operand as bytes, keeping symbolic string
+// bytes symbolic. A symbolic scalar (integer, bool, byte) is rendered as ONE
+// fresh unconstrained byte: formatting numbers is not modelled, and an opaque
+// byte makes every assertion that depends on the rendering fail in the
+// engine (reported as not reproducing) instead of silently passing.
+func (fr *frame) displayVals(v value) []value {
+	switch x := v.(type) {
+	case iface:
+		if x.t == nil {
+			return strBytes("<nil>")
+		}
+		if r, ok := fr.callStringMethodVal(x, "Error"); ok {
+			return fr.displayVals(r)
+		}
+		if r, ok := fr.callStringMethodVal(x, "String"); ok {
+			return fr.displayVals(r)
+		}
+		if b, ok := x.t.Underlying().(*types.Slice); ok {
+			if e, ok := b.Elem().Underlying().(*types.Basic); ok && e.Kind() == types.Uint8 {
+				if bs, ok := x.v.([]value); ok {
+					return append([]value(nil), bs...)
+				}
+			}
+		}
+		return fr.displayVals(x.v)
+	case string, symstr:
+		return strBytes(x)
+	case *Term:
+		return []value{fr.p.newVar("fmt_opaque", 8)}
+	}
+	return strBytes(fr.display(v))
+}
+
+func valsToStr(bs []value) value {
+	for _, b := range bs {
+		if _, ok := b.(uint8); !ok {
+			return symstr{bs}
+		}
+	}
+	out := make([]byte, len(bs))
+	for i, b := range bs {
+		out[i] = b.(uint8)
+	}
+	return string(out)
 }
 
 // ---------------------------------------------------------------- fmt
@@ -342,12 +397,13 @@ func (fr *frame) sprintf(format value, args []value) value {
 		}
 		return "<fmt>"
 	}
-	var sb strings.Builder
+	var out []value
+	ws := func(x string) { out = append(out, strBytes(x)...) }
 	ai := 0
 	for i := 0; i < len(f); i++ {
 		c := f[i]
 		if c != '%' {
-			sb.WriteByte(c)
+			out = append(out, c)
 			continue
 		}
 		i++
@@ -363,11 +419,11 @@ func (fr *frame) sprintf(format value, args []value) value {
 		}
 		verb := f[i]
 		if verb == '%' {
-			sb.WriteByte('%')
+			out = append(out, byte('%'))
 			continue
 		}
 		if ai >= len(args) {
-			sb.WriteString("%!" + string(verb) + "(MISSING)")
+			ws("%!" + string(verb) + "(MISSING)")
 			continue
 		}
 		arg := args[ai]
@@ -375,17 +431,17 @@ func (fr *frame) sprintf(format value, args []value) value {
 		switch verb {
 		case 'T':
 			if it, ok := arg.(iface); ok && it.t != nil {
-				sb.WriteString(it.t.String())
+				ws(it.t.String())
 			} else {
-				sb.WriteString("<nil>")
+				ws("<nil>")
 			}
 		case 'q':
-			sb.WriteString(strconv.Quote(fr.display(arg)))
+			ws(strconv.Quote(fr.display(arg)))
 		default:
-			sb.WriteString(fr.display(arg))
+			out = append(out, fr.displayVals(arg)...)
 		}
 	}
-	return sb.String()
+	return valsToStr(out)
 }
 
 func extFmtSprintf(fr *frame, a []value) value {
@@ -393,11 +449,11 @@ func extFmtSprintf(fr *frame, a []value) value {
 }
 
 func extFmtSprint(fr *frame, a []value) value {
-	var sb strings.Builder
+	var out []value
 	for _, x := range a[0].([]value) {
-		sb.WriteString(fr.display(x))
+		out = append(out, fr.displayVals(x)...)
 	}
-	return sb.String()
+	return valsToStr(out)
 }
 
 func extFmtErrorf(fr *frame, a []value) value {
